@@ -1,9 +1,11 @@
+mod common;
 mod diff;
 mod engine;
 mod fe;
 mod gen;
 mod model;
 mod props;
+mod tracekit;
 mod vm;
 
 use engine::{Ctx, Tier};
@@ -15,6 +17,10 @@ fn main() {
         std::process::exit(2);
     }
     let prop = args[1].clone();
+    if prop == "dev" {
+        dev(&args[2..]);
+        return;
+    }
     let mut tier = match std::env::var("VERIF_TIER").as_deref() {
         Ok("thorough") => Tier::Thorough,
         _ => Tier::Quick,
@@ -43,7 +49,9 @@ fn main() {
         let txt = std::fs::read_to_string(&path).expect("replay file");
         let v: serde_json::Value = serde_json::from_str(&txt).expect("replay json");
         match prop.as_str() {
+            "C03" => props::c03::replay(&ctx, &v),
             "C05" => props::c05::replay(&ctx, &v),
+            "C06" => props::c06::replay(&ctx, &v),
             _ => {
                 eprintln!("unknown property {prop}");
                 std::process::exit(2);
@@ -51,7 +59,9 @@ fn main() {
         }
     } else {
         match prop.as_str() {
+            "C03" => props::c03::run(&ctx),
             "C05" => props::c05::run(&ctx),
+            "C06" => props::c06::run(&ctx),
             _ => {
                 eprintln!("unknown property {prop}");
                 std::process::exit(2);
@@ -59,4 +69,32 @@ fn main() {
         }
     }
     std::process::exit(ctx.finish());
+}
+
+/// developer helper: vcheck dev <source-file> [stack values top first...]
+fn dev(args: &[String]) {
+    use winter_prover::Trace;
+    let src = std::fs::read_to_string(&args[0]).expect("source file");
+    let stack: Vec<u64> = args[1..].iter().filter_map(|s| s.parse().ok()).collect();
+    let case = vm::Case { src, stack, ..Default::default() };
+    let p = match vm::assemble(&case, false) {
+        vm::Assembled::Ok(p) => p,
+        vm::Assembled::Err(e) => return println!("asm error: {e}"),
+        vm::Assembled::Panic(p) => return println!("asm PANIC: {p}"),
+    };
+    println!("hash {:?}", p.hash());
+    match vm::run(&p, &case, processor::ExecutionOptions::default()) {
+        vm::Ran::Ok(mut t, _) => {
+            let s = *t.trace_len_summary();
+            println!("cycles {} range {} chiplets {} n {}", s.main_trace_len(), s.range_trace_len(), s.chiplets_trace_len().trace_len(), t.length());
+            println!("outputs {:?}", t.stack_outputs().stack());
+            let chal = common::challenges(&[1, 2, 3], 7);
+            match props::c03::check_trace("DEV", &case, &p, &mut t, &chal, 0) {
+                Ok(n) => println!("AIR ok ({} evaluations)", n),
+                Err(v) => println!("AIR: {} {}", v.sig, v.msg),
+            }
+        }
+        vm::Ran::Err(e, _) => println!("exec error: {e}"),
+        vm::Ran::Panic(p) => println!("exec PANIC: {p}"),
+    }
 }
